@@ -21,6 +21,7 @@ ASSUMPTIONS = [
 ]
 FLOORS = {"quick": {"evaluations": 2000, "distinct": 1500, "roundtrips": 4000},
           "thorough": {"evaluations": 100000, "distinct": 60000, "roundtrips": 200000}}
+ANCHORS = ['Message.dump', 'Message.load', 'Message._postprocess_single', '_preprocess_single', '_serialize_single', 'load_fields', 'load_varint', 'Message.__eq__']
 CONTRACTS = ["bytes", "varint", "oneof", "time"]
 
 
